@@ -1084,7 +1084,9 @@ class BaseScreen(metaclass=BaseMeta):
             name, like_name = item
             if like_name not in self._palette:
                 raise ScreenError(f"palette entry '{like_name}' doesn't exist")
-            self._palette[name] = self._palette[like_name]
+            specs = self._palette[like_name]
+            signals.emit_signal(self, UPDATE_PALETTE_ENTRY, name, *specs)
+            self._palette[name] = specs
 
     def register_palette_entry(
         self,
